@@ -1,18 +1,22 @@
 #!/bin/sh
-# usage: tools/seed_all.sh C01 C02 ...   (validates /tmp/seed_<ID>/out/{a,b} and saves them under seeded/)
+# usage: [SEED_ROOT=/tmp/seed2_ SEED_NAMES="a:c b:d"] tools/seed_all.sh C01 C02 ...
+# validates $SEED_ROOT<ID>/out/{a,b} (author's worktree re-used: demos assert its path) and saves them under seeded/
 cd "$(dirname "$0")/.." || exit 2
+root="${SEED_ROOT:-/tmp/seed_}"
+names="${SEED_NAMES:-a:a b:b}"
 for id in "$@"; do
-  for x in a b; do
-    d=/tmp/seed_$id/out/$x
-    [ -f "$d/patch.diff" ] || { echo "$id-$x: no patch"; continue; }
-    /venv/bin/python tools/seedcheck.py "$d" --props "$id" --worktree "/tmp/seed_$id" --save "seeded/$id-$x" > "/tmp/seedres_$id-$x.json" 2>&1
-    /venv/bin/python - "$id-$x" <<'PY'
+  for pair in $names; do
+    x="${pair%%:*}"; y="${pair##*:}"
+    d="$root$id/out/$x"
+    [ -f "$d/patch.diff" ] || { echo "$id-$y: no patch"; continue; }
+    /venv/bin/python tools/seedcheck.py "$d" --props "$id" --worktree "$root$id" --save "seeded/$id-$y" > "/tmp/seedres_$id-$y.json" 2>&1
+    /venv/bin/python - "$id-$y" <<'PY'
 import json,sys
 n=sys.argv[1]
 try:
     r=json.load(open('/tmp/seedres_%s.json'%n))
     c=r.get('checks',{})
-    print(n,'valid_seed=%s'%r.get('valid_seed'),'demo_without=%s demo_with=%s suite=%s'%(r.get('demo_without'),r.get('demo_with'),r.get('suite_tail','')[:60]),{k:(v['verdict'],v['kinds'][:2]) for k,v in c.items()})
+    print(n,'valid_seed=%s'%r.get('valid_seed'),'demo_without=%s demo_with=%s suite=%s'%(r.get('demo_without'),r.get('demo_with'),r.get('suite_tail','')[:40]),{k:(v['verdict'],v['kinds'][:2]) for k,v in c.items()})
 except Exception as e:
     print(n,'ERROR',e, open('/tmp/seedres_%s.json'%n).read()[-400:])
 PY
